@@ -41,6 +41,28 @@ pub struct ASParameters {
     decay_coefficient: f64,
 }
 
+#[cfg(mahf_verif)]
+impl ASParameters {
+    /// Verification-only constructor (the fields are private).
+    pub fn verif_new(
+        num_ants: usize,
+        alpha: f64,
+        beta: f64,
+        default_pheromones: f64,
+        evaporation: f64,
+        decay_coefficient: f64,
+    ) -> Self {
+        Self {
+            num_ants,
+            alpha,
+            beta,
+            default_pheromones,
+            evaporation,
+            decay_coefficient,
+        }
+    }
+}
+
 /// Ant System (AS).
 ///
 /// Uses the [`aco`] component internally.
@@ -96,6 +118,30 @@ pub struct MMASParameters {
     max_pheromones: f64,
     /// Minimal allowed pheromone value.
     min_pheromones: f64,
+}
+
+#[cfg(mahf_verif)]
+impl MMASParameters {
+    /// Verification-only constructor (the fields are private).
+    pub fn verif_new(
+        num_ants: usize,
+        alpha: f64,
+        beta: f64,
+        default_pheromones: f64,
+        evaporation: f64,
+        max_pheromones: f64,
+        min_pheromones: f64,
+    ) -> Self {
+        Self {
+            num_ants,
+            alpha,
+            beta,
+            default_pheromones,
+            evaporation,
+            max_pheromones,
+            min_pheromones,
+        }
+    }
 }
 
 /// MAX-MIN Ant System (MMAS).
